@@ -94,6 +94,8 @@ def oracle(case, ob):
         return "wrong merge result"
     if ob.get("passed_through") is False:
         return "a value of the result is a copy of the argument's value, not the value itself"
+    if ob.get("result_is_the_callers") is False:
+        return "the result is not a new dictionary: what the caller wrote into it shows in a later result (or in an argument)"
     if ob.get("second_call_ok") is False:
         return "a second call with the same (meanwhile changed) argument objects did not merge what they hold now"
     return None
